@@ -581,3 +581,5 @@ def run(ctx, led):
     run_rule(led, "L15", "the reason implies the branch: every tested bound of another variable that guards a propagation is stated in the reason", l15, ctx)
     run_rule(led, "L16", "SIBLINGS: the `…_at_trail_position` queries agree on the inclusive position convention", l16, ctx)
     run_rule(led, "L17", "lazy reasons of reified propagators keep the reification literal (shared with C09-R7)", C09.r7, ctx)
+    from . import C08 as _C08
+    run_rule(led, "L18", "WITNESS-POINT of pointwise hole explanations (shared with C08-H11)", _C08.h11, ctx)
